@@ -64,6 +64,54 @@ func mkAEADKey(spec aeadSpec, key []byte, asm bool) (cipher.AEAD, cipher.Block, 
 	return a, blk, spec, err
 }
 
+// mkAEADHistory is mkAEADKey preceded by other AEAD constructions on the SAME Block
+// (different nonce/tag sizes), as a program that derives several AEADs from one cipher
+// does. The earlier AEADs are used once (a Seal) and dropped.
+func mkAEADHistory(spec aeadSpec, key []byte, asm bool, prior []aeadSpec) (cipher.AEAD, cipher.Block, aeadSpec, error) {
+	if len(prior) == 0 {
+		return mkAEADKey(spec, key, asm)
+	}
+	prev := sm4.VerifSetAsm(asm)
+	defer sm4.VerifSetAsm(prev)
+	blk, err := sm4.NewCipher(key)
+	if err != nil {
+		return nil, nil, spec, err
+	}
+	build := func(sp aeadSpec) (cipher.AEAD, aeadSpec, error) {
+		if ga, ok := blk.(gcmAble); ok && asm {
+			switch {
+			case sp.NonceSize == 12 && sp.TagSize == 16:
+				a, err := cipher.NewGCM(blk)
+				return a, sp, err
+			case sp.TagSize == 16:
+				a, err := cipher.NewGCMWithNonceSize(blk, sp.NonceSize)
+				return a, sp, err
+			case sp.NonceSize == 12:
+				a, err := cipher.NewGCMWithTagSize(blk, sp.TagSize)
+				return a, sp, err
+			}
+			a, err := ga.NewGCM(sp.NonceSize, sp.TagSize)
+			return a, sp, err
+		}
+		if sp.NonceSize != 12 && sp.TagSize != 16 {
+			sp.TagSize = 16
+		}
+		if sp.NonceSize == 12 {
+			a, err := cipher.NewGCMWithTagSize(blk, sp.TagSize)
+			return a, sp, err
+		}
+		a, err := cipher.NewGCMWithNonceSize(blk, sp.NonceSize)
+		return a, sp, err
+	}
+	for _, p := range prior {
+		if a, eff, err := build(p); err == nil {
+			a.Seal(nil, make([]byte, eff.NonceSize), []byte("earlier traffic"), nil)
+		}
+	}
+	a, eff, err := build(spec)
+	return a, blk, eff, err
+}
+
 // AsmAvailable reports whether the accelerated path can run on this machine.
 func AsmAvailable() bool { return sm4.VerifAsmDefault }
 
